@@ -320,7 +320,8 @@ func slowSinkPoint() {
 
 func (s *Sched) Run() {
 	runningSched = s
-	defer func() { runningSched = nil }()
+	verifshim.SinkHook = slowSinkPoint
+	defer func() { runningSched, verifshim.SinkHook = nil, nil }()
 	verifshim.SendHook = func(ch interface{}, v interface{}) { s.Send(ch, v) }
 	verifshim.RecvHook = func(ch interface{}) (interface{}, bool) { return s.Recv(ch) }
 	verifshim.SelectHook = func(hasDefault bool, cases []verifshim.SelCase) verifshim.SelResult {
